@@ -32,6 +32,7 @@ def scripts(env):
     out += [G.c18_handler(env.rng) for _ in range(env.scale(40, 600))]
     out += [G.c18_obs_cancelled(env.rng) for _ in range(env.scale(40, 600))]
     out += [G.c18_obs_consumer(env.rng) for _ in range(env.scale(40, 600))]
+    out += [G.c18_blockwise(env.rng) for _ in range(env.scale(60, 900))]
     return out
 
 
